@@ -39,6 +39,7 @@ type srvResp struct {
 	Stall  bool  // the body never arrives: Read blocks until the request is cancelled
 	Err    bool  // transport error
 	ErrIs  error // transport error that wraps this error (e.g. context.DeadlineExceeded, as http.Client.Timeout produces)
+	CL     int64 // != 0: the Content-Length the server announces (whatever the body holds; -1: unknown); the body is followed by io.ErrUnexpectedEOF when it is shorter
 	Trunc  bool  // the connection drops in the middle of the body: Content-Length announces all of it, half arrives, then io.ErrUnexpectedEOF
 }
 
@@ -125,6 +126,12 @@ func (s *stubServer) RoundTrip(req *http.Request) (*http.Response, error) {
 	resp.ContentLength = int64(len(body))
 	if r.Trunc {
 		resp.Body = io.NopCloser(io.MultiReader(bytes.NewReader(body[:len(body)/2]), errReader{io.ErrUnexpectedEOF}))
+	}
+	if r.CL != 0 {
+		resp.ContentLength = r.CL
+		if r.CL > int64(len(body)) {
+			resp.Body = io.NopCloser(io.MultiReader(bytes.NewReader(body), errReader{io.ErrUnexpectedEOF}))
+		}
 	}
 	return resp, nil
 }
